@@ -163,9 +163,11 @@ seq_t dtw_warping_paths{{ suffix }}{{ suffix2 }}(seq_t *wps,
                 smaller_found = true;
                 ec_next = ci + 1;
             } else {
-                if (!smaller_found)
+                // A psi-relaxed path can still start in a later row (first column)
+                // or further in the first row
+                if (!smaller_found && ri >= settings->psi_1b)
                     sc = ci + 1;
-                if (ci >= ec)
+                if (ci >= ec && (ri > 0 || ci >= settings->psi_2b))
                     break;
             }
             {%- endif %}
@@ -233,9 +235,11 @@ seq_t dtw_warping_paths{{ suffix }}{{ suffix2 }}(seq_t *wps,
                 smaller_found = true;
                 ec_next = ci + 1;
             } else {
-                if (!smaller_found)
+                // A psi-relaxed path can still start in a later row (first column)
+                // or further in the first row
+                if (!smaller_found && ri >= settings->psi_1b)
                     sc = ci + 1;
-                if (ci >= ec)
+                if (ci >= ec && (ri > 0 || ci >= settings->psi_2b))
                     break;
             }
             {%- endif %}
@@ -303,9 +307,11 @@ seq_t dtw_warping_paths{{ suffix }}{{ suffix2 }}(seq_t *wps,
                 smaller_found = true;
                 ec_next = ci + 1;
             } else {
-                if (!smaller_found)
+                // A psi-relaxed path can still start in a later row (first column)
+                // or further in the first row
+                if (!smaller_found && ri >= settings->psi_1b)
                     sc = ci + 1;
-                if (ci >= ec)
+                if (ci >= ec && (ri > 0 || ci >= settings->psi_2b))
                     break;
             }
             {%- endif %}
@@ -383,9 +389,11 @@ seq_t dtw_warping_paths{{ suffix }}{{ suffix2 }}(seq_t *wps,
                 smaller_found = true;
                 ec_next = ci + 1;
             } else {
-                if (!smaller_found)
+                // A psi-relaxed path can still start in a later row (first column)
+                // or further in the first row
+                if (!smaller_found && ri >= settings->psi_1b)
                     sc = ci + 1;
-                if (ci >= ec)
+                if (ci >= ec && (ri > 0 || ci >= settings->psi_2b))
                     break;
             }
             {%- endif %}
